@@ -51,9 +51,10 @@ def check_predicate(report):
         r1.instance(f"{mod}.RESERVED_NAMES -> {tgt}")
         r1.check(tgt in ("gapic.utils.reserved_names.RESERVED_NAMES", "gapic.utils.RESERVED_NAMES"), mm.path, 0, f"{mod} imports RESERVED_NAMES from {tgt}",
                  "every site must test membership in the one reserved list")
+    from ..pymodel import fmatch
     for qual, pattern, what in SITES:
         fi = m.func(qual)
-        node, b = find_match(pattern, fi.node)
+        node, b, _form = fmatch(m, pattern, fi)
         r1.instance(what)
         r1.check(node is not None, fi.module.path, fi.node.lineno, what, f"{what}: expected the shape `{pattern}` (exactly one trailing underscore, same predicate)")
     from .common_rules import per_segment_disambiguation
@@ -98,19 +99,44 @@ def check_predicate(report):
     r3.check(node is not None and "make_private(" in ast.unparse(cmn.node) and "self.is_internal" in ast.unparse(cmn.node), wr, cmn.node.lineno,
              "Method.client_method_name", "keyword rpc names get one trailing '_' (case-insensitively, because the method name is snake-cased); internal ones a leading '_'")
     tsn = m.func("gapic.schema.wrappers.Method.transport_safe_name")
-    src = ast.unparse(tsn.node)
-    node, b = find_match("f'{self.name}_' if self.name.lower() in _U_ else self.name", tsn.node)
+    from ..pymodel import nmatch
+    b = nmatch(m, "f'{self.name}_' if self.name.lower() in _ANYU_ else self.name", tsn)
     r3.instance("transport_safe_name")
-    r3.check(node is not None and "keyword.kwlist" in src and all(w in src for w in ("'createchannel'", "'grpcchannel'", "'operationsclient'")), wr, tsn.node.lineno,
-             "Method.transport_safe_name", "transport property names avoid keywords and the transport's own members")
+    r3.check(b is not None and "keyword.kwlist" in b["_ANYU_"] and all(w in b["_ANYU_"] for w in ("'createchannel'", "'grpcchannel'", "'operationsclient'")), wr,
+             tsn.node.lineno, "Method.transport_safe_name", "transport property names avoid keywords and the transport's own members")
     bd = m.func("gapic.schema.api.API.build")
-    inv = [n for n in ast.walk(bd.node) if isinstance(n, ast.Assign) and ast.unparse(n.targets[0]) == "invalid_module_names"]
-    r3.instance("proto file names")
-    ok = len(inv) == 1 and ast.unparse(inv[0].value).startswith("set(keyword.kwlist) |") and all(w in ast.unparse(inv[0].value) for w in ("'metadata'", "'retry'", "'timeout'", "'request'"))
-    r3.check(ok, bd.module.path, bd.node.lineno, "invalid_module_names", "proto file names avoid keywords and the client control parameters")
+    from ..pymodel import FuncInfo, nfunc, find_match_ast
+    from ..pynorm import norm_expr
     inner = [n for n in ast.walk(bd.node) if isinstance(n, ast.FunctionDef) and n.name == "disambiguate_keyword_sanitize_fname"]
-    r3.check(len(inner) == 1 and find_match("_N_ in invalid_module_names or _P_ in _V_", inner[0])[0] is not None and "disambiguate_keyword_sanitize_fname(" in ast.unparse(inner[0].body),
-             bd.module.path, bd.node.lineno, "disambiguate_keyword_sanitize_fname", "colliding or invalid names get '_' and are re-checked")
+    r3.need(len(inner) == 1, "API.build.<locals>.disambiguate_keyword_sanitize_fname")
+    ifi = FuncInfo(bd.qual + ".<locals>.disambiguate_keyword_sanitize_fname", inner[0], bd.module, bd.cls)
+    nf = nfunc(m, ifi)
+    node, bb = find_match_ast(norm_expr(ast.parse("_ANYN_ in _ANYS_ or _ANYP_ in _V_", mode="eval").body), nf)
+    r3.instance("proto file names")
+    names_src = None
+    if node is not None:
+        names_src = bb["_ANYS_"]
+        if names_src.isidentifier():      # a variable of the enclosing function: look at what it is bound to
+            defs = [n for n in ast.walk(bd.node) if isinstance(n, ast.Assign) and ast.unparse(n.targets[0]) == names_src]
+            names_src = ast.unparse(defs[0].value) if len(defs) == 1 else None
+    ok = False
+    if names_src is not None:
+        parts, work = [], [ast.parse(names_src, mode="eval").body]
+        while work:                       # operands of a `|` / .union() chain
+            e = work.pop()
+            if isinstance(e, ast.BinOp) and isinstance(e.op, ast.BitOr):
+                work += [e.left, e.right]
+            elif isinstance(e, ast.Call) and isinstance(e.func, ast.Attribute) and e.func.attr == "union":
+                work += [e.func.value] + list(e.args)
+            elif isinstance(e, ast.Call) and isinstance(e.func, ast.Name) and e.func.id in ("set", "frozenset") and len(e.args) == 1:
+                work.append(e.args[0])
+            else:
+                parts.append(e)
+        lits = {c.value for e in parts if isinstance(e, (ast.Set, ast.List, ast.Tuple)) for c in e.elts if isinstance(c, ast.Constant)}
+        ok = any(ast.unparse(e) == "keyword.kwlist" for e in parts) and {"metadata", "retry", "timeout", "request"} <= lits
+    r3.check(ok, bd.module.path, inner[0].lineno, "invalid module names", "proto file names avoid keywords and the client control parameters")
+    r3.check(node is not None and "disambiguate_keyword_sanitize_fname(" in ast.unparse(inner[0].body), bd.module.path, inner[0].lineno,
+             "disambiguate_keyword_sanitize_fname", "colliding or invalid names get '_' and are re-checked")
     ma = m.func("gapic.schema.metadata.Address.module_alias")
     r3.instance("module_alias")
     r3.check(find_match("self.module in self.collisions or self.module in RESERVED_NAMES", ma.node)[0] is not None, ma.module.path, ma.node.lineno,
